@@ -34,6 +34,9 @@ let parse_op (t : string) : op =
   | 'Q' -> ORequest (a 0, a 1)
   | 'B' -> OSubscribe (a 0)
   | 'P' -> ONewPase
+  | 'e' -> OEstablishBegin (a 0)
+  | 's' -> OResumeBegin (a 0)
+  | 'D' -> OFinishFull N0   (* placeholder: the slot name is resolved by [run_s] *)
   | _ -> failwith ("bad op " ^ t)
 
 let status_str = function
@@ -46,7 +49,7 @@ let status_str = function
 (* a resumption that is declined for whatever reason looks the same to the peer *)
 let status_for (o : op) (r : status) : string =
   match o, r with
-  | OResume _, (StNoFabric | StNoRecord) -> "refused"
+  | (OResume _ | OResumeBegin _), (StNoFabric | StNoRecord) -> "refused"
   | _, _ -> status_str r
 
 let fabric_str (f : fabric) =
@@ -94,11 +97,37 @@ let parse_ops (f : string list) =
   | _ :: _ :: _ :: o :: _ -> List.map parse_op (List.filter (fun x -> x <> "") (split_on ',' o))
   | _ -> []
 
+(* The harness catches at most one handshake in its last step at a time: while one is pending,
+   E / S / e / s are answered "busy" without touching the device, and "D" completes the pending
+   one (the model operation needs the name of its reserved slot, which is the next session name
+   at the moment the handshake began). *)
 let run_s (f : string list) =
   let st0 = parse_init (List.nth f 2) in
   let ops = parse_ops f in
-  let (_, tr) = run st0 ops in
-  String.concat ";" (List.map2 (fun o (r, st) -> status_for o r ^ "@" ^ state_str st) ops tr)
+  let st = ref st0 in
+  let pending : (bool * n) option ref = ref None in
+  let out = List.map (fun o ->
+      let tag =
+        match o, !pending with
+        | (OEstablish _ | OResume _ | OEstablishBegin _ | OResumeBegin _), Some _ -> "busy"
+        | (OFinishFull _ | OFinishResume _), None -> "nopending"
+        | (OFinishFull _ | OFinishResume _), Some (resume, sid) ->
+          pending := None;
+          let o' = if resume then OFinishResume sid else OFinishFull sid in
+          let (st', r) = step !st o' in
+          st := st'; status_for o' r
+        | _, _ ->
+          let sid = !st.st_nsid in
+          let (st', r) = step !st o in
+          st := st';
+          (match o, r with
+           | OEstablishBegin _, StOk -> pending := Some (false, sid)
+           | OResumeBegin _, StOk -> pending := Some (true, sid)
+           | ORestart, _ -> pending := None
+           | _, _ -> ());
+          status_for o r in
+      tag ^ "@" ^ state_str !st) ops in
+  String.concat ";" out
 
 (* ------------------------------------------------------------------ monitor mode *)
 let items (s : string) = List.filter (fun t -> t <> "") (split_on ' ' s)
@@ -161,11 +190,12 @@ let parse_status (s : string) : status =
   | "conflict" -> StConflict | "tablefull" -> StTableFull | "notfound" -> StNotFound
   | "nospace" -> StNoSpace | "nofabric" -> StNoFabric | "refused" -> StNoRecord
   | "invcmd" -> StInvCmd
+  | "busy" -> StBusy
   | _ -> StFail  (* any other error answer: a refusal *)
 
 let verdict_names (v : n list) =
   let names = List.map (fun c -> match int_of_n c with
-    | 1 -> "usable-session-outlives-fabric"
+    | 1 -> "session-outlives-fabric"
     | 2 -> "resumption-record-outlives-fabric"
     | 3 -> "subscription-outlives-fabric"
     | 4 -> "persisted-record-outlives-fabric"
